@@ -27,6 +27,7 @@ func runC20(c *Ctx) {
 	c.Rule("C20.O1", "E4", "every non-nil return of each Malloc(size) has length size: the last store to the returned slice is make([]byte,size) or x[:size]", 3)
 	c.Rule("C20.O2", "E2,E4", "inside mempool: no use / return / second release of a block after its release; Append and Realloc copy to offsets 0 and len(old)", 4)
 	c.Rule("C20.O3", "E4", "pooling Free: Put only behind cap>0 and the upper bound; MemPool.Malloc grows to size before [:size]; aligned class table indexed only within bounds; each class's New makes exactly the class size", 5)
+	c.Rule("C20.O5", "E4", "the aligned allocator never lets the runtime choose a capacity: builtin append on a handed-out buffer only behind cap-len >= len(more) (in place); growth goes through Malloc of a class size", 1)
 	c.Rule("C20.O4", "E5", "sync.Pool.Put only in Free; no allocator stores a buffer pointer or slice into a field, global or map", 2)
 
 	// ------------------------------------------------------------------ O1
@@ -309,6 +310,41 @@ func runC20(c *Ctx) {
 		c.Cond(bad == "", "C20.O3", "mempool.init: class New makes the class size", c.FnPos(in), "make([]byte, size) with the size recorded in poolSizes[i]", bad)
 	} else {
 		c.Unres("C20.O3", "mempool.init", "package initialiser not found")
+	}
+
+	// ------------------------------------------------------------------ O5
+	{
+		bad := ""
+		n := 0
+		for _, f := range c.pkgFuncs("mempool") {
+			name := c.P.FuncName(f)
+			if !strings.HasPrefix(name, "(*mempool.AlignedAllocator).") {
+				continue
+			}
+			fi := c.P.Info(f)
+			for _, cs := range c.P.CallsNamed(f, "builtin:append") {
+				n++
+				// in place iff dominated by cap(x)-len(x) >= len(more) on the true edge
+				ok := fi.HasFact(cs.In, func(ft ir.Fact) bool {
+					b, isB := ft.Cond.(*ssa.BinOp)
+					if !isB || !ft.Truth || b.Op != token.GEQ {
+						return false
+					}
+					d, isD := ir.Resolve(b.X).(*ssa.BinOp)
+					if !isD || d.Op != token.SUB {
+						return false
+					}
+					_, isCap := ir.IsCapOf(ir.Resolve(d.X))
+					_, isLen := ir.IsLenOf(ir.Resolve(d.Y))
+					_, isLen2 := ir.IsLenOf(ir.Resolve(b.Y))
+					return isCap && isLen && isLen2
+				})
+				if !ok {
+					bad = name + " appends at " + c.Pos(cs.In) + " without knowing that the bytes fit the capacity: the runtime then picks a capacity that is a multiple of 32 but not a class size, Free files the buffer under a larger class, and a later Malloc re-slices it beyond its capacity"
+				}
+			}
+		}
+		c.Cond(bad == "", "C20.O5", "AlignedAllocator: no runtime-chosen capacities", "", fmt.Sprintf("%d append site(s), all in place", n), bad)
 	}
 
 	// ------------------------------------------------------------------ O4
